@@ -176,6 +176,44 @@ def ie_text(rng):
     return ''.join(parts) + ''.join(out)
 
 
+IE_MARKER = None
+
+
+def ie_expected(text):
+    """What C02g's theorems say `stripIEConditionals(text)` is, computed without calling it: ('id' | 'several', result)
+    when `stripIE_id` / `stripIE_several` (Props/C02.lean) apply, else None.  The matches are taken from the real
+    `findall` (their shape is `ieMatch_reading`), the side conditions are evaluated here."""
+    import re
+    global IE_MARKER
+    if IE_MARKER is None:
+        IE_MARKER = re.compile('<!--[ \t\r\n]*\\[[ \t\r\n]*if')
+    from AdvancedHTMLParser.utils import IE_CONDITIONAL_PATTERN
+    if not IE_MARKER.search(text):
+        return ('id', text)
+    ms = list(IE_CONDITIONAL_PATTERN.finditer(text))
+    if not ms:
+        return None
+    conds = [m.group(0) for m in ms]
+    gaps, pos = [], 0
+    for m in ms:
+        gaps.append(text[pos:m.start()])
+        pos = m.end()
+    gaps.append(text[pos:])
+    joined = ''.join(gaps)
+    if IE_MARKER.search(joined) or any(IE_MARKER.search(c[1:]) for c in conds):
+        return None
+    if any(a != b and (a.startswith(b) or b.startswith(a)) for a in conds for b in conds):
+        return None
+    # the html-tag rule (addHtmlIfMissing_cases)
+    ws = '[ \t\r\n]*'
+    word = '[hH][tT][mM][lL]'
+    if re.search('</' + ws + word + ws + '>', joined) and not re.search('<' + ws + word + ws + '>', joined):
+        d = re.match('[\n]*[ \t]*<![dD][oO][cC][tT][yY][pP][eE][^>]*>', joined)
+        k = d.end() if d else 0
+        joined = joined[:k] + '<html>' + joined[k:]
+    return ('several', joined)
+
+
 def ie_raw_feed(parser, text):
     """`AdvancedHTMLParser.feed` after its first line: what the parser does with the (already stripped) text"""
     from html.parser import HTMLParser
@@ -751,6 +789,8 @@ class Check(PropCheck):
             fs.append('strip:near-miss')
         if '\n' in text:
             fs.append('strip:multi-line')
+        exp = ie_expected(text)
+        fs.append('strip:theorem-' + (exp[0] if exp else 'none') + ('' if ms or not exp else '-no-marker'))
         return fs
 
     def strip_oracle(self, text):
@@ -760,6 +800,10 @@ class Check(PropCheck):
         stripped = stripIEConditionals(text)
         if not isinstance(stripped, str):
             return ('strip', 'stripIEConditionals(%r) returned %s' % (text, type(stripped).__name__))
+        exp = ie_expected(text)
+        if exp is not None and exp[1] != stripped:
+            return ('strip-theorem', 'stripIEConditionals(%r) = %r, but the side conditions of stripIE_%s hold and give %r'
+                    % (text, stripped, exp[0], exp[1]))
         for kind in ('plain', 'indexed'):
             outs = []
             for how in ('parseStr', 'bytes', 'raw'):
